@@ -61,10 +61,22 @@ def has_negated_class(s):
     return False
 
 
-def run_children(hashseed, jobs):
-    """one fresh interpreter with the given PYTHONHASHSEED runs all jobs"""
+# what else differs between two interpreters running "the same program with the same seed": environment
+# variables (CI worker ids, locale, time zone, user), the working directory, the recursion limit, optimisation
+ENVIRONMENTS = [
+    {},
+    {"PYTEST_XDIST_WORKER": "gw1", "PYTEST_CURRENT_TEST": "t.py::test (call)", "TZ": "Asia/Tokyo", "LANG": "tr_TR.UTF-8",
+     "LC_ALL": "C", "USER": "someone", "HOME": "/nonexistent", "CI": "true", "D42_CHILD_RECURSIONLIMIT": "3000",
+     "D42_CHILD_CWD": "/tmp"},
+    {"PYTEST_XDIST_WORKER": "gw7", "TZ": "America/St_Johns", "PYTHONOPTIMIZE": "1", "COLUMNS": "40", "D42_CHILD_RECURSIONLIMIT": "1500"},
+]
+
+
+def run_children(hashseed, jobs, k=0):
+    """one fresh interpreter with the given PYTHONHASHSEED (and the k-th environment) runs all jobs"""
     env = dict(os.environ)
     env["PYTHONHASHSEED"] = str(hashseed)
+    env.update(ENVIRONMENTS[k % len(ENVIRONMENTS)])
     p = subprocess.run([sys.executable, CHILD], input=json.dumps(jobs), capture_output=True, text=True, env=env,
                        timeout=900)
     if p.returncode != 0:
@@ -147,6 +159,18 @@ def run(ctx):
                 sources.append(src)
                 schemas.append(gen.build(src))
             dist["raising_then_repeats"] = dist.get("raising_then_repeats", 0) + 1
+        if q % 9 == 4:
+            # repeats nested deeper than any fraction of a usual recursion limit (each level draws 0 or 1)
+            deep = r.choice([130, 140, 150])
+            inner = "ab"
+            for lvl in range(deep):        # the innermost levels draw (1 or 2), the outer ones only nest
+                inner = "(?:" + inner + ")" + ("{1,2}" if lvl < 4 else "{1}")
+            src = "schema.str.regex('" + inner + "c')"
+            sources.append(src)
+            schemas.append(gen.build(src))
+            sources.append("schema.list(schema.int)")
+            schemas.append(gen.build("schema.list(schema.int)"))
+            dist["deeply_nested_repeats"] = dist.get("deeply_nested_repeats", 0) + 1
         if q % 5 == 2:
             # schemas built by make_required / + from dicts with several drawing members: the ORDER of
             # the result's keys decides the order of the draws (keys given as a set, or not at all)
@@ -168,8 +192,8 @@ def run(ctx):
         dist["schemas"] += len(schemas)
     # (a) fresh interpreters with different hash randomisation; each repeats every run twice
     outs = {}
-    for hs in hashseeds:
-        outs[hs] = run_children(hs, jobs)
+    for k, hs in enumerate(hashseeds):
+        outs[hs] = run_children(hs, jobs, k)
         dist["process_runs"] += 1
     for q, (seed, sources, schemas, negated) in enumerate(meta):
         dist["negated_class"] += int(negated)
